@@ -655,7 +655,7 @@ func r14_3(c *Ctx) {
 	for _, g := range scope {
 		allInstrs(g, func(_ *ssa.BasicBlock, _ int, in ssa.Instruction) {
 			if al, ok := in.(*ssa.Alloc); ok && namedIs(al.Type(), "ast", "CodeWriter") && writer == nil {
-				if g == f || returnsFreshAlloc(g) {
+				if g == f || g == compileBody(c) || returnsFreshAlloc(g) {
 					writer, wfn = al, g
 				}
 			}
@@ -1170,7 +1170,7 @@ func r14_6(c *Ctx) {
 	// the generated code does not depend on the switch
 	codeFld := c.fieldByName("compiler", "CompileResult", "Code")
 	n := 0
-	allInstrs(compile, func(_ *ssa.BasicBlock, _ int, in ssa.Instruction) {
+	allInstrs(compileBody(c), func(_ *ssa.BasicBlock, _ int, in ssa.Instruction) {
 		st, ok := in.(*ssa.Store)
 		if !ok {
 			return
@@ -1691,7 +1691,7 @@ func r14_7(c *Ctx) {
 		}
 	}
 	codeFld := c.fieldByName("compiler", "CompileResult", "Code")
-	allInstrs(compile, func(_ *ssa.BasicBlock, _ int, in ssa.Instruction) {
+	allInstrs(compileBody(c), func(_ *ssa.BasicBlock, _ int, in ssa.Instruction) {
 		st, ok := in.(*ssa.Store)
 		if !ok {
 			return
@@ -1986,6 +1986,36 @@ func mirroredBranches(c *Ctx, f *ssa.Function, b *ssa.BasicBlock) string {
 
 // compileScope: Compile and the private functions of package compiler that only it (or another of them) calls — the
 // pieces a maintainer may split Compile into. What holds for "Compile" is checked over this scope.
+// compileBody: the entry point that holds the compilation code — Compile itself, or the exported sibling with the same
+// result type it delegates to (Compile(p) = CompileNode(p)); recognised by the store to CompileResult.Code.
+func compileBody(c *Ctx) *ssa.Function {
+	compile, scope := compileScope(c)
+	if compile == nil {
+		return nil
+	}
+	codeFld := c.fieldByName("compiler", "CompileResult", "Code")
+	has := func(f *ssa.Function) bool {
+		found := false
+		allInstrs(f, func(_ *ssa.BasicBlock, _ int, in ssa.Instruction) {
+			if st, ok := in.(*ssa.Store); ok && codeFld != nil {
+				if _, ok := isFieldAddr(st.Addr, codeFld); ok {
+					found = true
+				}
+			}
+		})
+		return found
+	}
+	if has(compile) {
+		return compile
+	}
+	for _, f := range scope {
+		if f != compile && f.Object() != nil && f.Object().Exported() && has(f) {
+			return f
+		}
+	}
+	return compile
+}
+
 func compileScope(c *Ctx) (*ssa.Function, []*ssa.Function) {
 	compile := c.fn("(*compiler.Compiler).Compile")
 	if compile == nil {
@@ -2005,7 +2035,20 @@ func compileScope(c *Ctx) (*ssa.Function, []*ssa.Function) {
 	for changed := true; changed; {
 		changed = false
 		for f, cs := range callers {
-			if in[f] || f.Object() == nil || f.Object().Exported() {
+			if in[f] || f.Object() == nil {
+				continue
+			}
+			if f.Object().Exported() {
+				// another entry point on the same receiver that Compile delegates to (Compile(p) = CompileNode(p)): its
+				// body is compilation code whoever calls it
+				if f.Signature.Recv() != nil && compile.Signature.Recv() != nil && types.Identical(f.Signature.Recv().Type(), compile.Signature.Recv().Type()) && types.Identical(f.Signature.Results(), compile.Signature.Results()) {
+					for _, g := range cs {
+						if in[g] {
+							in[f] = true
+							changed = true
+						}
+					}
+				}
 				continue
 			}
 			all := true
